@@ -162,6 +162,8 @@ def check(ctx):
     from .xmlfmt import check_documents_verbatim, check_get_constructs
     check_get_constructs(ctx, an, model)
     check_documents_verbatim(ctx, an, model)
+    from .xmlfmt import check_xml_output_validated
+    check_xml_output_validated(ctx, an, model)
     # ---------------------------------------------------------------- C04.6 wrappers
     pairs = {"JsonConfigFormat": ("json", "dumps", "loads"), "BsonConfigFormat": ("bson", "dumps", "loads"),
              "PickleConfigFormat": ("pickle", "dumps", "loads"), "YamlConfigFormat": ("yaml", "dump", "load")}
